@@ -441,7 +441,7 @@ fn configs(thorough: bool) -> Vec<Config> {
             if a.is_empty() || b.is_empty() {
                 continue;
             }
-            if !thorough && a.len() + b.len() > 3 {
+            if !thorough && (a.len() + b.len() > 3 || (a.len() + b.len() == 3 && (a.contains(&Msg::LA) || b.contains(&Msg::LA)))) {
                 continue;
             }
             for join in [true, false] {
